@@ -46,6 +46,9 @@ pub enum Step {
     /// C07: warm handoff - build a second allocator (assume-initialized) over byte copies of the
     /// three metadata buffers; from now on both are driven in lock-step
     Warm,
+    /// restart in place at a quiescent point: `recover` = cold (volatile buffers zeroed,
+    /// Init::Recover), otherwise warm (all three buffers as they are, Init::None)
+    Reinit { recover: bool },
 }
 
 fn opt_u(j: Option<&J>) -> Option<usize> {
@@ -94,6 +97,7 @@ impl Step {
                 .set("class", *class)
                 .set("slot", *slot),
             Step::Warm => J::obj().set("op", "warm_handoff"),
+            Step::Reinit { recover } => J::obj().set("op", "reinit").set("recover", *recover),
         }
     }
     pub fn from_json(j: &J) -> Option<Step> {
@@ -123,6 +127,9 @@ impl Step {
                 class: j.gu("class") as u8,
                 slot: opt_u(j.get("slot")),
             },
+            "reinit" => Step::Reinit {
+                recover: j.get("recover").and_then(J::b).unwrap_or(false),
+            },
             "free_tree" => Step::FreeTree {
                 tree: j.gu("tree") as usize,
                 mode: j.gu("mode") as u8,
@@ -151,6 +158,8 @@ pub struct Profile {
     pub w_probe_base: usize,
     pub w_probe_at: usize,
     pub w_exhaust: usize,
+    /// re-initialise the allocator in place (Init::Recover / Init::None) at a quiescent point
+    pub w_reinit: usize,
     /// perform one warm handoff at a random step (C07)
     pub warm: bool,
     /// change_tree may name any id in 0..2*trees, targeted gets may carry a slot
@@ -180,6 +189,7 @@ impl Profile {
             w_probe_base: 0,
             w_probe_at: 0,
             w_exhaust: 0,
+            w_reinit: 1,
             warm: false,
             open: false,
             single: false,
@@ -195,6 +205,7 @@ impl Profile {
             name: "Q1open",
             open: true,
             w_change: 10,
+            w_reinit: 3,
             ..Self::q1()
         }
     }
@@ -211,6 +222,7 @@ impl Profile {
             w_drain: 0,
             w_change: 0,
             single: true,
+            w_reinit: 0,
             w_exhaust: 10,
             min_steps: 40,
             max_steps: 200,
@@ -324,7 +336,10 @@ pub fn gen_config(rng: &mut Rng, p: &Profile) -> Config {
     };
     let kind = if p.custom && rng.chance(1, 2) { ClassKind::Custom } else { kind };
     let mut slots: Vec<usize> = (0..kind.classes()).map(|_| rng.range(1, 3)).collect();
-    if p.open && rng.chance(1, 3) {
+    // classes without local slots: often in the opened-up space of C09, sometimes everywhere
+    // else (C02 names the zero-slot classings), never for the drain probes of C10 (1-3 slots)
+    let zero = if p.open { rng.chance(1, 3) } else { p.w_probe_base == 0 && rng.chance(1, 6) };
+    if zero {
         let i = rng.below(slots.len());
         slots[i] = 0;
         if rng.chance(1, 3) {
@@ -395,6 +410,7 @@ pub struct SeqStats {
     pub crash_in_split: u64,
     pub oom_with_reserved_global_free: u64,
     pub exhausts: u64,
+    pub reinits: u64,
     pub handoffs: u64,
     pub lockstep_calls: u64,
 }
@@ -512,9 +528,11 @@ impl Run<'_> {
             p.w_probe_base,
             p.w_probe_at,
             p.w_exhaust,
+            p.w_reinit,
         ];
         let (class, slot) = self.gen_class_slot(rng);
         match rng.weighted(&w) {
+            12 => Step::Reinit { recover: rng.chance(1, 2) },
             0 => Step::Call(Call::Get {
                 target: None,
                 order: self.gen_order(rng),
@@ -793,7 +811,7 @@ impl Run<'_> {
                 class: *class,
                 slot: *slot,
             }),
-            Step::Warm | Step::FreeTree { .. } => None,
+            Step::Warm | Step::FreeTree { .. } | Step::Reinit { .. } => None,
             Step::ProbeAt {
                 frame,
                 order,
@@ -1414,6 +1432,7 @@ impl Run<'_> {
                 }
             }
             Step::Warm => self.handoff(),
+            Step::Reinit { recover } => self.reinit(*recover),
             Step::ProbeBase { .. } | Step::ProbeAt { .. } => {
                 if self.cfg.kind == ClassKind::Custom {
                     return;
@@ -1449,6 +1468,79 @@ impl Run<'_> {
 }
 
 impl Run<'_> {
+    /// F-crash (quiescent, cold) / F-warm in place: rebuild the allocator over its own buffers
+    fn reinit(&mut self, recover: bool) {
+        if self.twin.is_some() || self.crash_on || cfg!(miri) {
+            return;
+        }
+        self.stats.reinits += 1;
+        let (local, trees, lower) = {
+            let w = self.shared.lock();
+            (w.locals, w.trees, w.lower)
+        };
+        let cfg = self.cfg.clone();
+        let r = masked(|| unsafe {
+            let l = std::slice::from_raw_parts_mut(local.start as *mut u8, local.len);
+            let t = std::slice::from_raw_parts_mut(trees.start as *mut u8, trees.len);
+            let p = std::slice::from_raw_parts_mut(lower.start as *mut u8, lower.len);
+            if recover {
+                // only the persistent buffer survives
+                l.fill(0);
+                t.fill(0);
+            }
+            create(&cfg, if recover { llfree::Init::Recover } else { llfree::Init::None }, crate::exec::Bufs { local: l, trees: t, lower: p })
+        });
+        let what = if recover { "Init::Recover over its own persistent buffer" } else { "Init::None over its own buffers" };
+        match r {
+            Ok(Ok(a)) => {
+                self.alloc = a;
+                if recover {
+                    // offline is volatile state: recovery rebuilds every tree counter
+                    self.model.offline.clear();
+                }
+                unsafe {
+                    let mut w = self.shared.lock();
+                    w.attach(
+                        cfg.frames,
+                        std::slice::from_raw_parts(lower.start as *const u8, lower.len),
+                        std::slice::from_raw_parts(trees.start as *const u8, trees.len),
+                        std::slice::from_raw_parts(local.start as *const u8, local.len),
+                    );
+                }
+                self.lower_changed();
+                self.stats.full_compares += 1;
+                if let Ok(Some((f, got, want))) = masked(|| guarded(|| compare_frames(&self.alloc, &self.model))) {
+                    self.report(
+                        Violation::new(
+                            if recover { "C05" } else { "C07" },
+                            "reinit-frame-state",
+                            format!("after {what}: frame {f} free={got} in the allocator, free={want} in the model"),
+                        ),
+                        true,
+                    );
+                    return;
+                }
+                if self.props.has(4) {
+                    let mut v = Vec::new();
+                    masked(|| check_views(&self.alloc, &self.model, &mut self.vrng, &mut v));
+                    for mut x in v {
+                        x.detail = format!("after {what}: {}", x.detail);
+                        self.report(x, false);
+                    }
+                }
+            }
+            Ok(Err(e)) => self.report(
+                Violation::new("C09", "reinit-error", format!("{what} returned {e:?}")),
+                true,
+            ),
+            Err(Outcome::Panic { msg, loc }) => self.report(
+                Violation::new("C09", format!("reinit-{}", panic_signature(&msg, &loc)), format!("{what} panicked: {msg} at {loc}")),
+                true,
+            ),
+            Err(_) => self.stop = true,
+        }
+    }
+
     /// F-warm: byte-copy the three buffers and build a second allocator with `Init::None`
     fn handoff(&mut self) {
         if self.twin.is_some() || cfg!(miri) {
